@@ -119,10 +119,18 @@ class C19(Property):
             cases.append({"key": rng.choice(["lk", "lock:a", "{x}.l"]), "n": ni, "ops": ops})
         return cases
 
+    # go-zero keeps one go-redis client per server address for the life of the process, so an
+    # executor process leaks a few descriptors per case: run it on chunks of cases
+    CHUNK = 400
+
     def execute(self, cases, ctx):
-        rc, out, res = vlib.go_run(self.bin, cases, tag="c19", timeout=900)
-        if rc != 0 or len(res) != len(cases):
-            raise ExecError("c19 executor rc=%s: %s" % (rc, out[-2000:]))
+        res = []
+        for k in range(0, len(cases), self.CHUNK):
+            part = cases[k:k + self.CHUNK]
+            rc, out, r = vlib.go_run(self.bin, part, tag="c19", timeout=300)
+            if rc != 0 or len(r) != len(part):
+                raise ExecError("c19 executor rc=%s: %s" % (rc, out[-2000:]))
+            res += r
         for r in res:
             if r.get("err"):
                 raise ExecError("c19 executor: case %s: %s" % (r.get("id"), r["err"]))
